@@ -109,7 +109,16 @@ static size_t alloc_run(long hno, int maxlen, int record) {
                 { xrlComplex z; xv_poison_stack();      /* whatever the library leaves unwritten on its stack now reads as NaN */
                   z = Crystal_F_H_StructureFactor_Partial(u, 1 + 30 * xv_unit(&r), (int)xv_below(&r, 5) - 2, (int)xv_below(&r, 5) - 2, (int)xv_below(&r, 5) - 2, xv_below(&r, 5) ? 1.0 : -1.0, 1.0, (int)xv_below(&r, 4), (int)xv_below(&r, 4), (int)xv_below(&r, 4), &e);
                   if (!e && !(isfinite(z.re) && isfinite(z.im))) hm_violation("c04:structure-factor-not-finite-without-error", "Crystal_F_H_StructureFactor_Partial returned a non-finite value without an error (stack poisoned with 0xFF before the call: a read of a never-written local)");
-                  al_sink += z.re; } break; } break;
+                  al_sink += z.re; }
+                if (xv_below(&r, 5) == 0) {      /* a caller-built struct whose atom count is NEGATIVE (a by-value copy: the pool object keeps its own count) */
+                  static const int neg[] = { -1, -2, -1000000, INT_MIN }; Crystal_Struct v = *u; xrl_error *e3 = NULL; xrlComplex z; Crystal_Struct *cc;
+                  v.n_atom = neg[xv_below(&r, 4)]; if (xv_below(&r, 2)) v.atom = NULL;
+                  z = Crystal_F_H_StructureFactor_Partial(&v, 1 + 30 * xv_unit(&r), 1, 1, (int)xv_below(&r, 3), 1.0, 1.0, (int)xv_below(&r, 4), (int)xv_below(&r, 4), (int)xv_below(&r, 4), &e3);
+                  if (e3) { xrl_error_free(e3); e3 = NULL; } al_sink += z.re;
+                  z = Crystal_F_H_StructureFactor(&v, 8.0, 1, 1, 1, 1.0, 1.0, &e3); if (e3) { xrl_error_free(e3); e3 = NULL; } al_sink += z.im;
+                  /* (memcheck counts a negative size handed to malloc as an error of its own - "fishy value" - although the allocator simply refuses it: not under valgrind) */
+                  if (!getenv("XV_UNDER_VALGRIND")) { cc = Crystal_MakeCopy(&v, &e3); if (e3) { xrl_error_free(e3); e3 = NULL; } if (cc) { cc->n_atom = 0; PUT(T_CR, cc); } } }
+                break; } break;
       case 3: { Crystal_Array *a = Crystal_ArrayInit((int)xv_below(&r, 8) - 1, &e); PUT(T_ARR, a); break; }
       default: for (k = 0; k < np; k++) if (pool[k].type == T_ARR) { int j; for (j = 0; j < np; j++) if (pool[j].type == T_CR && xv_below(&r, 2)) { Crystal_Struct *u = pool[j].p; xrl_error *e2 = NULL; int z, okz = 1; for (z = 0; z < u->n_atom; z++) if (u->atom[z].Zatom < 1 || u->atom[z].Zatom > 98) okz = 0; (void)okz; Crystal_AddCrystal(u, pool[k].p, &e2); if (e2) { xrl_error_free(e2); e2 = NULL; } c = Crystal_GetCrystal(u->name, pool[k].p, &e2); if (e2) xrl_error_free(e2); PUT(T_CR, c); break; } break; } break;
       }
